@@ -29,6 +29,8 @@ facade's initial state `init regP regK`.  History-level vocabulary (defined in P
                                 the property's histories; replayed on the real code);
 * `active_spec`, `selfact_irrelevant`  the updaters' own `active` flag: what it is after a
                                 history, and that no delivery decision depends on it;
+* `devices_independent`         several device objects in one process: each device's listeners
+                                receive exactly what that device's own events produce;
 * `chg_chain`                   volume / output-device / focus notifications (old,new) form a
                                 chain from the initial value to the facade's current value,
                                 every link a real change (`chain_spec` spells it out);
@@ -278,6 +280,18 @@ theorem selfact_irrelevant (regP regK : List Proto) (evs : List Ev) :
     (run (init regP regK) evs).1.forget = (run (init regP regK) (dropSelfact evs)).1.forget :=
   run_dropSelfact evs (init regP regK)
 
+/-! ## Several device objects alive in one process -/
+
+/-- **C10, devices are independent.**  With any number of device objects in one process and
+    any interleaving of their events, what the listeners of device `d` receive (and `d`'s
+    state) is exactly what the single-device machine gives on `d`'s own events: no listener
+    is called for a change that happened on another device.  (The model is a product by
+    construction — every device has its own listener table; the harness checks the real code
+    against this projection with 2–3 devices alive.) -/
+theorem devices_independent (sts : Nat → St) (evs : List (Nat × Ev)) (d : Nat) :
+    runTagged sts evs d = run (sts d) ((evs.filter (fun x => x.1 == d)).map (·.2)) :=
+  runTagged_proj evs sts d
+
 /-! ## Non-vacuity -/
 
 -- a history that exercises duplicate suppression, takeover filtering, stop and restart
@@ -305,6 +319,11 @@ example : plays (run (init [0, 4] []) [.start, .selfact 4 false, .drain, .stop, 
 example : (run (init [0, 4] []) [.start, .selfact 4 false]).1.act 4 = false ∧
     (run (init [0, 4] []) [.start, .selfact 4 false]).1.act 0 = true ∧
     dropSelfact [.start, .selfact 4 false, .post 0 1] = [.start, .post 0 1] := by decide
+
+-- two devices, events interleaved: device 1's volume change is not seen by device 0
+example : (runTagged (fun _ => init [0] [0]) [(0, .change .vol 0 1), (1, .change .vol 0 2), (1, .drain),
+    (0, .drain), (1, .change .vol 0 1), (0, .change .vol 0 1), (0, .drain), (1, .drain)] 0).2
+    = [.chg .vol 0 1] := by decide
 
 example : lastPost 0 [.start, .post 0 1, .drain] = some 1 := by decide
 
